@@ -57,16 +57,19 @@ struct Client { prog: Vec<Rq>, next: usize, cur: Option<Fut>, first_poll_step: V
 #[derive(Clone, Copy, Debug)]
 enum StoreKind { Per, Ada, Pro }
 
-fn make(kind: StoreKind, cap: usize) -> (RateLimiterHandle, Pin<Box<dyn Future<Output = ()>>>) {
+fn per(clean: bool) -> PeriodicStore { PeriodicStore::builder().capacity(16).cleanup_interval(if clean { Duration::from_nanos(1) } else { Duration::from_secs(1_000_000_000) }).build() }
+fn ada(clean: bool) -> AdaptiveStore { if clean { AdaptiveStore::builder().capacity(16).max_operations(1).build() } else { AdaptiveStore::builder().capacity(16).max_operations(usize::MAX).min_interval(Duration::from_secs(1_000_000_000)).max_interval(Duration::from_secs(2_000_000_000)).build() } }
+fn pro(clean: bool) -> ProbabilisticStore { ProbabilisticStore::builder().capacity(16).cleanup_probability(if clean { 1 } else { 1 << 40 }).build() }
+fn make(kind: StoreKind, cap: usize, clean: bool) -> (RateLimiterHandle, Pin<Box<dyn Future<Output = ()>>>) {
     let m = Arc::new(Metrics::builder().max_denied_keys(0).build());
     match kind {
-        StoreKind::Per => { let (h, f) = RateLimiterActor::verif_unspawned_periodic(cap, PeriodicStore::builder().capacity(16).cleanup_interval(Duration::from_nanos(1)).build(), m); (h, Box::pin(f)) }
-        StoreKind::Ada => { let (h, f) = RateLimiterActor::verif_unspawned_adaptive(cap, AdaptiveStore::builder().capacity(16).max_operations(1).build(), m); (h, Box::pin(f)) }
-        StoreKind::Pro => { let (h, f) = RateLimiterActor::verif_unspawned_probabilistic(cap, ProbabilisticStore::builder().capacity(16).cleanup_probability(1).build(), m); (h, Box::pin(f)) }
+        StoreKind::Per => { let (h, f) = RateLimiterActor::verif_unspawned_periodic(cap, per(clean), m); (h, Box::pin(f)) }
+        StoreKind::Ada => { let (h, f) = RateLimiterActor::verif_unspawned_adaptive(cap, ada(clean), m); (h, Box::pin(f)) }
+        StoreKind::Pro => { let (h, f) = RateLimiterActor::verif_unspawned_probabilistic(cap, pro(clean), m); (h, Box::pin(f)) }
     }
 }
 
-fn seq_answers(kind: StoreKind, order: &[&Rq]) -> Vec<Ans> {
+fn seq_answers(kind: StoreKind, clean: bool, order: &[&Rq]) -> Vec<Ans> {
     // ONE fresh sequential limiter of the same store type
     let run = |rl: &mut dyn FnMut(&Rq) -> Ans| order.iter().map(|r| rl(r)).collect::<Vec<_>>();
     let conv = |res: Result<(bool, throttlecrab::RateLimitResult), throttlecrab::CellError>| -> Ans {
@@ -76,11 +79,11 @@ fn seq_answers(kind: StoreKind, order: &[&Rq]) -> Vec<Ans> {
         }
     };
     match kind {
-        StoreKind::Per => { let mut l = RateLimiter::new(PeriodicStore::builder().capacity(16).cleanup_interval(Duration::from_nanos(1)).build());
+        StoreKind::Per => { let mut l = RateLimiter::new(per(clean));
             run(&mut |r| conv(l.rate_limit(&format!("k{}", r.key), r.b, r.count, r.period, r.q, UNIX_EPOCH + Duration::from_nanos(r.now_ns)))) }
-        StoreKind::Ada => { let mut l = RateLimiter::new(AdaptiveStore::builder().capacity(16).max_operations(1).build());
+        StoreKind::Ada => { let mut l = RateLimiter::new(ada(clean));
             run(&mut |r| conv(l.rate_limit(&format!("k{}", r.key), r.b, r.count, r.period, r.q, UNIX_EPOCH + Duration::from_nanos(r.now_ns)))) }
-        StoreKind::Pro => { let mut l = RateLimiter::new(ProbabilisticStore::builder().capacity(16).cleanup_probability(1).build());
+        StoreKind::Pro => { let mut l = RateLimiter::new(pro(clean));
             run(&mut |r| conv(l.rate_limit(&format!("k{}", r.key), r.b, r.count, r.period, r.q, UNIX_EPOCH + Duration::from_nanos(r.now_ns)))) }
     }
 }
@@ -88,9 +91,9 @@ fn seq_answers(kind: StoreKind, order: &[&Rq]) -> Vec<Ans> {
 struct Outcome { ok: bool, what: String, order: Vec<(usize, usize)>, answers: Vec<Vec<Option<Ans>>>, cancelled: Vec<Vec<bool>>, steps: usize }
 
 /// actions: 0..k-1 poll client i; k poll actor; k+1+i cancel client i's pending request
-fn run_schedule(kind: StoreKind, cap: usize, progs: &[Vec<Rq>], schedule: &[usize]) -> Outcome {
+fn run_schedule(kind: StoreKind, cap: usize, clean: bool, progs: &[Vec<Rq>], schedule: &[usize]) -> Outcome {
     let k = progs.len();
-    let (handle, mut actor) = make(kind, cap);
+    let (handle, mut actor) = make(kind, cap, clean);
     let waker = noop_waker();
     let mut cx = Context::from_waker(&waker);
     let mut cl: Vec<Client> = progs.iter().map(|p| Client { prog: p.clone(), next: 0, cur: None, first_poll_step: vec![None; p.len()], done_step: vec![None; p.len()], answers: vec![None; p.len()], cancelled: vec![false; p.len()] }).collect();
@@ -138,11 +141,11 @@ fn run_schedule(kind: StoreKind, cap: usize, progs: &[Vec<Rq>], schedule: &[usiz
     let mut found: Option<Vec<(usize, usize)>> = None;
     let mut pos = vec![0usize; k];
     let mut order: Vec<(usize, usize)> = Vec::new();
-    fn rec(kind: StoreKind, cl: &[Client], pos: &mut Vec<usize>, order: &mut Vec<(usize, usize)>, found: &mut Option<Vec<(usize, usize)>>) {
+    fn rec(kind: StoreKind, clean: bool, cl: &[Client], pos: &mut Vec<usize>, order: &mut Vec<(usize, usize)>, found: &mut Option<Vec<(usize, usize)>>) {
         if found.is_some() { return; }
         if (0..cl.len()).all(|i| pos[i] >= cl[i].prog.len()) {
             let reqs: Vec<&Rq> = order.iter().map(|&(i, j)| &cl[i].prog[j]).collect();
-            let seq = seq_answers(kind, &reqs);
+            let seq = seq_answers(kind, clean, &reqs);
             for (n, &(i, j)) in order.iter().enumerate() {
                 if let Some(a) = &cl[i].answers[j] { if *a != seq[n] { return; } }
             }
@@ -162,15 +165,15 @@ fn run_schedule(kind: StoreKind, cap: usize, progs: &[Vec<Rq>], schedule: &[usiz
             if !ok { continue; }
             pos[i] += 1;
             order.push((i, j));
-            rec(kind, cl, pos, order, found);
+            rec(kind, clean, cl, pos, order, found);
             order.pop();
             // an abandoned request may also never have reached the actor
-            if cl[i].cancelled[j] { rec(kind, cl, pos, order, found); }
+            if cl[i].cancelled[j] { rec(kind, clean, cl, pos, order, found); }
             pos[i] -= 1;
             if found.is_some() { return; }
         }
     }
-    rec(kind, &cl, &mut pos, &mut order, &mut found);
+    rec(kind, clean, &cl, &mut pos, &mut order, &mut found);
     // every non-abandoned request has exactly one answer
     for c in &cl { for j in 0..c.prog.len() { if !c.cancelled[j] && c.answers[j].is_none() { return Outcome { ok: false, what: "a request that was not abandoned has no answer".into(), order: vec![], answers, cancelled, steps: step }; } } }
     match found {
@@ -181,22 +184,23 @@ fn run_schedule(kind: StoreKind, cap: usize, progs: &[Vec<Rq>], schedule: &[usiz
 
 fn gen_progs(rng: &mut Rng, k: usize, per: usize, hostile: bool) -> Vec<Vec<Rq>> {
     let t0: u64 = 1_700_000_000_000_000_000;
-    (0..k).map(|_| (0..per).map(|_| {
+    let ordered = rng.chance(2, 3);
+    (0..k).map(|_| (0..per).map(|j| {
         if hostile && rng.chance(1, 3) {
             Rq { key: rng.below(2), b: *rng.pick(&[i64::MAX, 0, -1, 1 << 32, 2147483647]), count: *rng.pick(&[1i64, i64::MAX, 0]), period: *rng.pick(&[i64::MAX, 1, -5, 9223372036]), q: *rng.pick(&[1i64, -1, i64::MAX, 0]), now_ns: t0 + rng.below(3_000_000_000) }
         } else {
-            Rq { key: rng.below(2), b: *rng.pick(&[1i64, 2, 3]), count: *rng.pick(&[1i64, 10]), period: 1, q: *rng.pick(&[1i64, 1, 2, 0]), now_ns: t0 + rng.below(4) * 500_000_000 }
+            Rq { key: rng.below(2), b: *rng.pick(&[1i64, 2, 3]), count: *rng.pick(&[1i64, 10]), period: 1, q: *rng.pick(&[1i64, 1, 2, 0]), now_ns: if ordered { t0 + j as u64 * 500_000_000 } else { t0 + rng.below(4) * 500_000_000 } }
         }
     }).collect()).collect()
 }
 
-fn emit(kind: StoreKind, cap: usize, progs: &[Vec<Rq>], schedule: &[usize], o: &Outcome) {
+fn emit(kind: StoreKind, cap: usize, clean: bool, progs: &[Vec<Rq>], schedule: &[usize], o: &Outcome) {
     let p: Vec<String> = progs.iter().map(|c| format!("[{}]", c.iter().map(|r| r.json()).collect::<Vec<_>>().join(","))).collect();
     let ans: Vec<String> = o.answers.iter().map(|c| format!("[{}]", c.iter().map(|a| a.as_ref().map(|x| x.json()).unwrap_or("null".into())).collect::<Vec<_>>().join(","))).collect();
     let ord: Vec<String> = o.order.iter().map(|(i, j)| format!("[{i},{j}]")).collect();
     let sch: Vec<String> = schedule.iter().map(|x| x.to_string()).collect();
     let canc: Vec<String> = o.cancelled.iter().map(|c| format!("[{}]", c.iter().map(|b| b.to_string()).collect::<Vec<_>>().join(","))).collect();
-    println!("{{\"store\":\"{:?}\",\"cap\":{cap},\"progs\":[{}],\"schedule\":[{}],\"ok\":{},\"what\":{:?},\"order\":[{}],\"answers\":[{}],\"cancelled\":[{}],\"steps\":{}}}",
+    println!("{{\"store\":\"{:?}\",\"cap\":{cap},\"clean\":{clean},\"progs\":[{}],\"schedule\":[{}],\"ok\":{},\"what\":{:?},\"order\":[{}],\"answers\":[{}],\"cancelled\":[{}],\"steps\":{}}}",
         kind, p.join(","), sch.join(","), o.ok, o.what, ord.join(","), ans.join(","), canc.join(","), o.steps);
 }
 
@@ -216,17 +220,17 @@ fn main() {
             let with_cancel = arg_u64("--cancel", 0) == 1;
             let nact = if with_cancel { 2 * k + 1 } else { k + 1 };
             for kind in [StoreKind::Per, StoreKind::Ada, StoreKind::Pro] {
-                for cap in [1usize, 2] {
+                for (cap, clean) in [(1usize, true), (2, false), (2, true), (1, false)] {
                     let progs = gen_progs(&mut rng, k, per, false);
                     let n = nact.pow(d as u32);
                     for code in 0..n {
                         let mut s = Vec::with_capacity(d);
                         let mut x = code;
                         for _ in 0..d { s.push(x % nact); x /= nact; }
-                        let o = run_schedule(kind, cap, &progs, &s);
+                        let o = run_schedule(kind, cap, clean, &progs, &s);
                         total += 1;
-                        if !o.ok { bad += 1; if bad <= 5 { emit(kind, cap, &progs, &s, &o); } }
-                        else if total % emit_every == 0 { emit(kind, cap, &progs, &s, &o); }
+                        if !o.ok { bad += 1; if bad <= 5 { emit(kind, cap, clean, &progs, &s, &o); } }
+                        else if total % emit_every == 0 { emit(kind, cap, clean, &progs, &s, &o); }
                     }
                 }
             }
@@ -248,10 +252,11 @@ fn main() {
                 let with_cancel = rng.chance(1, 3);
                 let nact = if with_cancel { 2 * k + 1 } else { k + 1 };
                 let s: Vec<usize> = (0..len).map(|_| rng.below(nact as u64) as usize).collect();
-                let o = run_schedule(kind, cap, &progs, &s);
+                let clean = rng.chance(1, 2);
+                let o = run_schedule(kind, cap, clean, &progs, &s);
                 total += 1;
                 if !o.ok { bad += 1; }
-                emit(kind, cap, &progs, &s, &o);
+                emit(kind, cap, clean, &progs, &s, &o);
             }
         }
     }
